@@ -495,6 +495,8 @@ def native_getattr(it, o, name):
             return SummaryFn("set.add", lambda it_, a, k: _set_add(it_, o, a[0]))
         if name == "remove":
             return SummaryFn("set.remove", lambda it_, a, k: _set_remove(it_, o, a[0]))
+        if name == "discard":
+            return SummaryFn("set.discard", lambda it_, a, k: _set_discard(it_, o, a[0]))
     if isinstance(o, str):
         if name == "join":
             return SummaryFn("str.join", lambda it_, a, k: _str_join(it_, o, a[0]))
@@ -606,6 +608,13 @@ def _set_remove(it, s, x):
             s.remove(y)
             return
     raise PyRaise(KeyError(x))
+
+
+def _set_discard(it, s, x):
+    for y in list(s):
+        if y is x or it.decide_eq(y, x):
+            s.remove(y)
+            return
 
 
 def _str_join(it, sep, xs):
